@@ -406,10 +406,18 @@ def _convert_to_test_module(enabled_examples):
     # from xdoctest import static_analysis as static
 
     module_lines = []
+    used_func_names = set()
     for example in enabled_examples:
 
         # Create a unit-testable function for this example
         func_name = 'test_' + example.modname.replace('.', '_') + '_' + example.callname.replace('.', '_')
+        if func_name in used_func_names:
+            # A callable with several doctests (or two callnames that map to
+            # the same identifier) must not overwrite an earlier function.
+            func_name = '{}_{}'.format(func_name, example.num)
+            while func_name in used_func_names:
+                func_name += '_'
+        used_func_names.add(func_name)
         body_lines = []
 
         docstr_lines = [
